@@ -10,6 +10,8 @@ INVS = "AtMostOnce NoStrand AsyncNeverBlocks BarrierExcl Order SyncAfterEnd Widt
 CONFIGS = {
     "Q1":  dict(W=1, sfx="Q1"),
     "Q1p": dict(W=1, sfx="Q1p"),
+    "Q1w": dict(W=1, sfx="Q1w"),
+    "Q2w": dict(W=2, sfx="Q2w"),
     "Q2q": dict(W=2, sfx="Q2q"),
     "Q2b": dict(W=2, sfx="Q2b"),
     "Q2":  dict(W=2, sfx="Q2"),
